@@ -19,27 +19,42 @@ for _r in (3, 2, 1):
 U = 1.0 / 64.0
 
 
+def _state_lines(sd):
+    out = []
+    args = []
+    if sd["timed"]:
+        if sd.get("intdur") and sd["dur"] % 64 == 0:
+            args.append(f"duration={sd['dur'] // 64}")  # declared with an int literal
+        else:
+            args.append(f"duration={sd['dur']}/64.0")
+        if sd.get("next") is not None:
+            args.append(f"next_state={sd['next']!r}")
+    if sd.get("first"):
+        args.append("first=True")
+    deco = ("@timed_state" if sd["timed"] else "@state") + (f"({', '.join(args)})" if args or sd.get("paren") else "")
+    params = ", ".join(["self"] + sd["sig"])
+    argd = ", ".join(f"{p!r}: {p}" for p in sd["sig"])
+    out.append("    " + deco)
+    out.append(f"    def {sd['n']}({params}):")
+    out.append(f"        self._hit({sd['n']!r}, {{{argd}}})")
+    return out
+
+
 def class_source(case):
-    out = ["class Mode(StatefulAutonomous):", f"    MODE_NAME = {case['mode_name']!r}", "    def initialize(self):"]
+    out = []
+    parent = "StatefulAutonomous"
+    split = case.get("split", 0)
+    if split:
+        # some states live in a base class (a team's common autonomous base)
+        out.append("class ModeBase(StatefulAutonomous):")
+        for sd in case["states"][:split]:
+            out.extend(_state_lines(sd))
+        parent = "ModeBase"
+    out += [f"class Mode({parent}):", f"    MODE_NAME = {case['mode_name']!r}", "    def initialize(self):"]
     body = [f"        self.register_sd_var({v['n']!r}, {v['default']!r}, add_prefix={v['prefix']})" for v in case.get("vars", [])]
     out.extend(body or ["        pass"])
-    for sd in case["states"]:
-        args = []
-        if sd["timed"]:
-            if sd.get("intdur") and sd["dur"] % 64 == 0:
-                args.append(f"duration={sd['dur'] // 64}")  # declared with an int literal
-            else:
-                args.append(f"duration={sd['dur']}/64.0")
-            if sd.get("next") is not None:
-                args.append(f"next_state={sd['next']!r}")
-        if sd.get("first"):
-            args.append("first=True")
-        deco = ("@timed_state" if sd["timed"] else "@state") + (f"({', '.join(args)})" if args or sd.get("paren") else "")
-        params = ", ".join(["self"] + sd["sig"])
-        argd = ", ".join(f"{p!r}: {p}" for p in sd["sig"])
-        out.append("    " + deco)
-        out.append(f"    def {sd['n']}({params}):")
-        out.append(f"        self._hit({sd['n']!r}, {{{argd}}})")
+    for sd in case["states"][split:]:
+        out.extend(_state_lines(sd))
     out.append("    def _hit(self, name, args):")
     out.append("        self._trace.append((name, args))")
     out.append("        sc = self._scripts.get(name)")
@@ -138,6 +153,8 @@ def decode(code):
                 sd["script"].append(["ns", names[t % n]])
         states.append(sd)
     case = {"states": states, "mode_name": ["Mode X", "auto1", "m"][name_c]}
+    if name_c == 1 and len(states) >= 2:
+        case["split"] = 1 + first_i % (len(states) - 1)
     case["vars"] = [{"n": f"v{i}", "default": VAR_DEFAULTS[d], "prefix": p} for i, (d, p) in enumerate(vars_c)]
     timed = [s["n"] for s in states if s["timed"]]
 
